@@ -22,7 +22,7 @@ VARIABLES regs,     \* P: Seq of [id, ev, prio, stops, spawn] in registration or
 vars == <<regs, byPrio, known, cache, last>>
 
 NoCache == <<-1>>
-NoSpawn == [ev |-> "", prio |-> 0]
+NoSpawn == [ev |-> "<none>", prio |-> 0]
 NoPrio == -999
 
 \* ------------------------------------------------------------------ P-layer
@@ -92,15 +92,17 @@ Spawn(st, called) ==
                   Tail(called))
 NSpawns(called) == Cardinality({k \in 1..Len(called) : regs[called[k]].spawn # NoSpawn})
 
-Dispatch(e) ==
+\* pre: the event object handed to dispatch() is already stopped (an event re-used after a stopped dispatch, or
+\* stopped by hand): propagation is tested before every call, so nothing is called
+Dispatch(e, pre) ==
   LET ls == Listeners(e)
       rs == [k \in 1..Len(ls) |-> Reg(ls[k])]
-      called == Calls(rs)
+      called == IF pre THEN <<>> ELSE Calls(rs)
       filled == [Cur EXCEPT !.cache = CacheAfterGet(e)]
       nx == Spawn(filled, called)
   IN /\ Len(regs) + NSpawns(called) <= MaxListeners
      /\ regs' = nx.regs /\ byPrio' = nx.byPrio /\ known' = nx.known /\ cache' = nx.cache
-     /\ last' = [op |-> "dispatch", ev |-> e, calls |-> called, before |-> Len(regs)]
+     /\ last' = [op |-> "dispatch", ev |-> e, calls |-> called, before |-> Len(regs), pre |-> pre]
 
 GetListeners(e) ==
   /\ cache' = CacheAfterGet(e)
@@ -128,7 +130,7 @@ GetPriority(e, id) ==
   /\ UNCHANGED <<regs, byPrio, known, cache>>
 
 Next == \/ \E e \in RegEvents, p \in Prios, st \in BOOLEAN, sp \in Spawns : Add(e, p, st, sp)
-        \/ \E e \in Events : Dispatch(e) \/ GetListeners(e) \/ Has(e)
+        \/ \E e \in Events : (\E pre \in BOOLEAN : Dispatch(e, pre)) \/ GetListeners(e) \/ Has(e)
         \/ GetAll \/ HasAny
         \/ \E e \in Events, id \in 1..MaxListeners : GetPriority(e, id)
 
@@ -137,7 +139,8 @@ Spec == Init /\ [][Next]_vars
 \* ------------------------------------------------------------------ the property, independent of the cache
 \* what was registered when the dispatch started (listeners registered by listeners during it come afterwards)
 RegsBefore(n, e) == SelectSeq(SubSeq(regs, 1, n), LAMBDA r : r.ev = e)
-DispatchCorrect == last.op = "dispatch" => last.calls = Calls(SortRegs(RegsBefore(last.before, last.ev)))
+DispatchCorrect == last.op = "dispatch" =>
+   last.calls = IF last.pre THEN <<>> ELSE Calls(SortRegs(RegsBefore(last.before, last.ev)))
 OnlyOwnEvent == last.op = "dispatch" => \A k \in 1..Len(last.calls) : Reg(last.calls[k]).ev = last.ev
 EachOnce == last.op = "dispatch" => \A j, k \in 1..Len(last.calls) : j # k => last.calls[j] # last.calls[k]
 \* query results agree with what was registered
